@@ -141,13 +141,15 @@ def _setup(ex, case):
         if ok:
             if w.cs is None:
                 ex.offline_ops += 1
-            if op in ("delete", "rmtree", "rmdir", "rename", "rename_dir"):
-                ex.user_removed.add(a[0])
             if op in ("rename", "rename_dir"):
-                # a stale leftover below a folder that is renamed later shows up under the new name
+                # a stale leftover (of something removed EARLIER) at or below a path that is renamed now shows up under the new name
+                # (evaluated before the source of this very rename is recorded as removed: the destination of a rename is a
+                # creation the peer must receive, not a leftover - seeded change C06-b hid behind exactly that)
                 for r in list(ex.user_removed):
                     if r == a[0] or r.startswith(a[0] + "/"):
                         ex.user_removed.add(a[1] + r[len(a[0]):])
+            if op in ("delete", "rmtree", "rmdir", "rename", "rename_dir"):
+                ex.user_removed.add(a[0])
         return ok, d
     w.user = user
 
